@@ -1,6 +1,7 @@
 import HdVerif.Proofs.SREvidence
 import HdVerif.Proofs.SREvidenceTie
 import HdVerif.Proofs.SRDocument
+import HdVerif.Proofs.SRTree
 import HdVerif.Generated.T15c
 /-! # C15  SR documents carry their content intact with complete evidence
 
@@ -1082,5 +1083,147 @@ example : (constructSR { exOptions with institution := none } (exArgs .comprehen
 example : (constructSR { exOptions with transferSyntax := "1.2.840.10008.1.2.4.50" } (exArgs .comprehensive3d true)).toBool = false := by
   decide
 example : (constructSR { exOptions with transferSyntax := "1.2.840.10008.1.2" } (exArgs .comprehensive3d true)).toBool = true := by decide
+
+/-! ## the content tree is carried intact (round 2; model `Model/SRTree.lean`: arbitrary trees of data sets with arbitrary
+attributes, values opaque) -/
+
+open HdVerif.SRTree in
+/-- **"An SR document contains the content tree it was given, unchanged."**  For ANY tree the constructor accepts
+(`convertRoot` = `ContentItem._from_dataset_derived` on the copied root followed by `ContentSequence([…], is_root=True)`),
+the tree the document holds is the given tree with the default concept name stored on exactly the data sets that lack a
+name and may lack one (`named`, the behaviour of `ContentItem._from_dataset_base`); if no data set lacks a name it IS the
+given tree — every attribute of every data set at every depth, children in order (induction over the tree, `convert_eq_named`).
+Tie: the decisions are over tables regenerated on every run (T15e, T15j); that the per-value-type parsers store nothing but
+re-wrapped copies of the attribute they read is `parsers_store_only_what_they_read` (T15j); attribute VALUES are opaque
+here — the canonical-form comparison of the correspondence (`.content`, the data set, the written file, `srread`,
+`from_dataset`) carries them. -/
+theorem tree_carried_unchanged (t t' : Node) (h : convertRoot t = .ok t') :
+    t' = named t ∧ (AllNamed t → t' = t) := by
+  have := convertRoot_eq_named t t' h
+  exact ⟨this, fun hn => by rw [this, named_eq_self t hn]⟩
+
+open HdVerif.SRTree in
+/-- **Which trees are accepted** (complete characterisation over the modelled checks): every data set reachable through
+content sequences has a value type of the enumeration, the attributes `_assert_value_type` requires for it, a concept name
+or a class that may lack one, and — below the root — a relationship type; the root has none and is a CONTAINER. -/
+theorem tree_accepted_iff (t : Node) :
+    (∃ t', convertRoot t = .ok t') ↔
+      WellFormed true t ∧ has t.attrs "RelationshipType" = false ∧ t.attrs.lookup "ValueType" = some "CONTAINER" :=
+  convertRoot_ok_iff t
+
+open HdVerif.SRTree in
+/-- **A malformed data set is refused at any depth**: if some data set reachable from the root lacks its value type, has
+one outside the enumeration, lacks a required attribute of its value type, lacks a concept name it must have, or lacks the
+relationship type, the document is not built. -/
+theorem malformed_data_set_refused_any_depth (t x : Node) (hx : Reach t x) (hbad : ¬ NodeOk false x.attrs) :
+    ∀ t', convertRoot t ≠ .ok t' := by
+  intro t' h
+  exact hbad (wellFormed_reach hx true ((convertRoot_ok_iff t).mp ⟨t', h⟩).1)
+
+open HdVerif.SRTree in
+/-- **"Parsing a written document exposes an equal tree."**  Let `t'` be the tree a document holds (`convertRoot t = ok t'`,
+root with a content sequence) and `own` the document's other attributes, none of which uses a keyword of the root item.
+Then `_SR.from_dataset` of the document data set (`writeDoc own t'`) succeeds and its root item has the SAME children
+(the whole subtree: converting a converted tree changes nothing, `convert_named`) and, for every keyword the parser copies
+(`rootKeys`, from the source: T15d), the same value; if the root carries no other keyword, the same value for EVERY
+keyword.  Reading the bytes back (`dcmwrite` / `dcmread`) is pydicom's and enters as the identity on data sets (checked on
+every case by the correspondence: written bytes re-read with pydicom alone). -/
+theorem parsed_tree_equals_document_tree (own : Attrs) (t t' : Node) (hconv : convertRoot t = .ok t')
+    (hseq : t'.hasSeq = true) (hown : ∀ kw, rootKeys.contains kw = true → own.lookup kw = none) :
+    ∃ p, parseDoc (writeDoc own t') = .ok p ∧ p.hasSeq = true ∧ p.children = t'.children ∧
+      (∀ kw, p.attrs.lookup kw = if rootKeys.contains kw then t'.attrs.lookup kw else none) ∧
+      ((∀ kv ∈ t'.attrs, rootKeys.contains kv.1 = true) → ∀ kw, p.attrs.lookup kw = t'.attrs.lookup kw) := by
+  obtain ⟨p, h1, h2, h3, h4⟩ := parse_written_root own t t' hconv hseq hown
+  refine ⟨p, h1, h2, h3, h4, ?_⟩
+  intro hall kw
+  rw [h4]
+  split
+  · rfl
+  · rename_i hk
+    symm
+    cases hl : t'.attrs.lookup kw with
+    | none => rfl
+    | some v =>
+      exfalso
+      have : ∀ (l : Attrs), l.lookup kw = some v → ∃ kv ∈ l, kv.1 = kw := by
+        intro l
+        induction l with
+        | nil => intro h; cases h
+        | cons hd tl ih =>
+          intro h
+          obtain ⟨k, v'⟩ := hd
+          rw [List.lookup_cons] at h
+          by_cases hkk : (kw == k) = true
+          · exact ⟨(k, v'), by simp, by simpa using (beq_iff_eq.mp hkk).symm⟩
+          · simp only [hkk] at h
+            obtain ⟨kv, hm, he⟩ := ih h
+            exact ⟨kv, List.mem_cons_of_mem _ hm, he⟩
+      obtain ⟨kv, hm, he⟩ := this _ hl
+      have := hall kv hm
+      rw [he] at this
+      exact hk this
+
+/-- **The parser tables are consistent and the parsers store only what they read** (regenerated from `sr/value_types.py`
+on every run, T15j; a trip-wire on tables in the sense of AGENT_GUIDE §3a).  (1) Every value type of the enumeration has a
+content item class and a row of required attributes (no KeyError in `_get_content_item_class` / `_assert_value_type`).
+(2) The class a value type is dispatched to asserts that same value type (`_from_dataset_derived` never fails on its own
+dispatch).  (3) Every attribute store of `ContentItem._from_dataset_base` and of the fifteen `from_dataset` methods reads
+only DICOM keywords that occur in its own target path — a parser re-wraps `item.X` as `item.X`, never as `item.Y`
+(a NUM unit stored as qualifier, a coded value rebuilt from the concept name … make this fail); the two stores that read
+nothing are the class change and the default concept name. -/
+theorem parsers_store_only_what_they_read :
+    (Gen.srValueTypes.all fun vt => (Gen.srContentItemClasses.lookup vt).isSome && (Gen.srRequiredAttributes.lookup vt).isSome) = true ∧
+    (Gen.srContentItemClasses.all fun (vt, cls) => Gen.srParserAsserts.lookup cls == some vt) = true ∧
+    (Gen.srParserStores.all fun (_, _, path, reads) => reads.all fun kw => path.contains kw) = true ∧
+    (Gen.srParserStores.filter fun (_, _, _, reads) => reads.isEmpty) =
+      [("ContentItem", "dataset.ConceptNameCodeSequence", ["ConceptNameCodeSequence"], []), ("ContentItem", "item.__class__", [], [])] ∧
+    Gen.srOptionalNameClasses.all (fun cls => (Gen.srContentItemClasses.map Prod.snd).contains cls) = true := by
+  decide +kernel
+
+/-- **The search and the parsers agree on items without a concept name** (two places of the code that must change together:
+`sr/utils.py` `_VALUE_TYPES_WITH_OPTIONAL_NAME` / `_DEFAULT_NAME`, regenerated by T15c, and `sr/value_types.py`
+`value_types_with_optional_name` / `default_name`, regenerated by T15j).  The name `find_content_items` lets stand in for a
+missing concept name is the name `ContentItem._from_dataset_base` stores, and for every value type of the enumeration the
+search tolerates a missing name iff the class that value type is parsed by may lack one.  So a tree the conversion accepts
+is searched without AttributeError (the document constructor searches the tree it was GIVEN for references and SCOORD3D
+items), and searching the given tree by name finds what searching `.content` finds (after fix `15e16d0`). -/
+theorem search_and_parser_agree_on_nameless_items :
+    Gen.findDefaultName = Gen.srDefaultName ∧
+    (∀ vt ∈ Gen.srValueTypes, Gen.findOptionalNameValueTypes.contains vt =
+      (match Gen.srContentItemClasses.lookup vt with
+       | some cls => Gen.srOptionalNameClasses.contains cls
+       | none => false)) ∧
+    Gen.findOptionalNameValueTypes.all Gen.srValueTypes.contains = true := by
+  decide +kernel
+
+/-- non-vacuity: a three-level tree (container > container > NUM, IMAGE without concept name > TEXT) is accepted, the IMAGE
+gets the default name, everything else is unchanged; the document data set parses back to the same root; a NUM item without
+`MeasuredValueSequence` at depth 2 is refused -/
+def exNode : SRTree.Node :=
+  .mk [("ValueType", "CONTAINER"), ("ConceptNameCodeSequence", "121071|DCM"), ("ContinuityOfContent", "SEPARATE"),
+       ("ContentTemplateSequence", "1500")] true
+    [.mk [("ValueType", "CONTAINER"), ("RelationshipType", "CONTAINS"), ("ConceptNameCodeSequence", "125007|DCM"),
+          ("ContinuityOfContent", "SEPARATE")] true
+       [.mk [("ValueType", "NUM"), ("RelationshipType", "CONTAINS"), ("ConceptNameCodeSequence", "M1|99"), ("MeasuredValueSequence", "1.5 mm")] false [],
+        .mk [("ValueType", "IMAGE"), ("RelationshipType", "CONTAINS"), ("ReferencedSOPSequence", "ct 1.1")] true
+          [.mk [("ValueType", "TEXT"), ("RelationshipType", "HAS PROPERTIES"), ("ConceptNameCodeSequence", "T|99"), ("TextValue", "x")] false []]]]
+
+def exNodeBad : SRTree.Node :=
+  .mk [("ValueType", "CONTAINER"), ("ConceptNameCodeSequence", "121071|DCM"), ("ContinuityOfContent", "SEPARATE")] true
+    [.mk [("ValueType", "CONTAINER"), ("RelationshipType", "CONTAINS"), ("ConceptNameCodeSequence", "125007|DCM"),
+          ("ContinuityOfContent", "SEPARATE")] true
+       [.mk [("ValueType", "NUM"), ("RelationshipType", "CONTAINS"), ("ConceptNameCodeSequence", "M1|99")] false []]]
+
+open HdVerif.SRTree in
+example : (convertRoot exNode).toBool = true ∧ (convertRoot exNodeBad).toBool = false := by decide +kernel
+open HdVerif.SRTree in
+example : (convertRoot exNode).map (fun t => (t.children.head?.bind (·.children[1]?)).map (·.attrs.lookup "ConceptNameCodeSequence")) =
+    .ok (some (some "260753009|SCT|Source")) := by decide +kernel
+open HdVerif.SRTree in
+example : ((convertRoot exNode).bind (fun t => parseDoc (writeDoc [("SOPClassUID", "1.2.840.10008.5.1.4.1.1.88.34")] t))).map
+      (fun p => (p.attrs.lookup "ContentTemplateSequence", p.attrs.lookup "SOPClassUID", p.children.length)) =
+    .ok (some "1500", none, 1) := by decide +kernel
+open HdVerif.SRTree in
+example : (parseDoc (.mk [("SOPClassUID", "x")] false [])).toBool = false := by decide +kernel
 
 end HdVerif.C15
